@@ -72,3 +72,38 @@ T("C05", "twin-rename-local", "c2.py",
 T("C05", "twin-early-return", "c2.py",
   "    if verify:\n        if not hmac_key:\n            raise ValueError(\"Cannot verify signature without hmac_key.\")\n        packet.raise_for_signature(hmac_key)\n    return decrypt_data(packet.ciphertext, aes_key, iv)",
   "    if not verify:\n        return decrypt_data(packet.ciphertext, aes_key, iv)\n    if not hmac_key:\n        raise ValueError(\"Cannot verify signature without hmac_key.\")\n    packet.raise_for_signature(hmac_key)\n    return decrypt_data(packet.ciphertext, aes_key, iv)")
+
+# =============================================================================== C01
+M("C01", "default-key-order", "beacon.py", 'DEFAULT_XOR_KEYS: List[bytes] = [b"\\x69", b"\\x2e", b"\\x00"]', 'DEFAULT_XOR_KEYS: List[bytes] = [b"\\x2e", b"\\x69", b"\\x00"]', "C01.R1")
+M("C01", "needle-shortened", "beacon.py", 'CONFIG_HEADER = b"\\x00\\x01\\x00\\x01\\x00\\x02\\x00"', 'CONFIG_HEADER = b"\\x00\\x01\\x00\\x01\\x00\\x02"', "C01.R2")
+M("C01", "scan-from-current", "beacon.py", "iter_find_needle(fh, xorred_config_block, start_offset=0)", "iter_find_needle(fh, xorred_config_block, start_offset=None)", "C01.R3")
+M("C01", "unxor-with-first-byte", "beacon.py", "        yield xor(data, xorkey)", "        yield xor(data, xorred_config_block[:1])", "C01.R3")
+M("C01", "record-first-key", "beacon.py", '                yield config_block, {"xorkey": xorkey, "xorencoded": False}', '                yield config_block, {"xorkey": xor_keys[0], "xorencoded": False}', "C01.R4")
+M("C01", "raw-flagged-encoded", "beacon.py", '                yield config_block, {"xorkey": xorkey, "xorencoded": False}', '                yield config_block, {"xorkey": xorkey, "xorencoded": True}', "C01.R4")
+M("C01", "raw-phase-ungated", "beacon.py", "    # Try finding config block without XorEncoding\n    if not found:", "    # Try finding config block without XorEncoding\n    if True:", "C01.R5")
+M("C01", "found-not-set", "beacon.py", "            for config_block in find_beacon_config_bytes(fobj, xorkey):\n                found = True\n", "            for config_block in find_beacon_config_bytes(fobj, xorkey):\n", "C01.R5")
+M("C01", "continue-on-first", "beacon.py", "            # Return the first found beacon config.\n            return bconfig", "            # Return the first found beacon config.\n            last = bconfig\n            continue", "C01.R6")
+M("C01", "from-bytes-drops-keys", "beacon.py", "        return cls.from_file(io.BytesIO(data), xor_keys=xor_keys, all_xor_keys=all_xor_keys)", "        return cls.from_file(io.BytesIO(data), all_xor_keys=all_xor_keys)", "C01.R7")
+M("C01", "raise-lookuperror", "beacon.py", '        raise ValueError("No valid Beacon configuration found")', '        raise LookupError("No valid Beacon configuration found")', "C01.R7")
+T("C01", "twin-tuple-keys", "beacon.py", 'DEFAULT_XOR_KEYS: List[bytes] = [b"\\x69", b"\\x2e", b"\\x00"]', 'DEFAULT_XOR_KEYS = (b"i", b".", b"\\x00")')
+T("C01", "twin-rename-loopvar", "beacon.py", "    for pos in iter_find_needle(fh, xorred_config_block, start_offset=0):\n        fh.seek(pos)", "    for hit in iter_find_needle(fh, xorred_config_block, start_offset=0):\n        fh.seek(hit)")
+
+# =============================================================================== C02
+M("C02", "short-little-endian", "beacon.py", "                    val = u16be(val)", "                    val = u16(val)", "C02.R2",
+  edits=[("beacon.py", "    u16be,\n    u32,", "    u16be,\n    u16,\n    u32,"), ("beacon.py", "                    val = u16be(val)", "                    val = u16(val)")])
+M("C02", "int-as-u32-le", "beacon.py", "                    val = u32be(val)", "                    val = u32(val)", "C02.R2")
+M("C02", "ptr-decoded", "beacon.py", "                elif setting.type == SettingsType.TYPE_INT:\n                    val = u32be(val)",
+  "                elif setting.type == SettingsType.TYPE_INT:\n                    val = u32be(val)\n                elif setting.type == SettingsType.TYPE_PTR:\n                    val = val.rstrip(b\"\\x00\")", "C02.R2")
+M("C02", "view-wrong-slot", "beacon.py", "        if self._raw_settings_by_index is None:\n            self._raw_settings_by_index = self.settings_map(index_type=\"const\")\n        return self._raw_settings_by_index",
+  "        if self._settings_by_index is None:\n            self._settings_by_index = self.settings_map(index_type=\"const\")\n        return self._settings_by_index", "C02.R3")
+M("C02", "view-wrong-pretty", "beacon.py", "            self._raw_settings = self.settings_map(index_type=\"name\")", "            self._raw_settings = self.settings_map(index_type=\"name\", pretty=True)", "C02.R3")
+M("C02", "sorted-settings", "beacon.py", "        for setting in self.settings_tuple:\n            val = setting.value", "        for setting in sorted(self.settings_tuple, key=lambda s: s.index.value):\n            val = setting.value", "C02.R4")
+M("C02", "return-dict", "beacon.py", "        return MappingProxyType(settings)", "        return settings", "C02.R4")
+M("C02", "terminator-skipped", "beacon.py", "        if peek == b\"\\x00\\x00\":\n            # end of beacon config\n            break", "        if peek == b\"\\x00\\x00\":\n            # end of beacon config\n            continue", "C02.R5")
+M("C02", "no-seek-back", "beacon.py", "            fobj.seek(-2, io.SEEK_CUR)\n            setting = Setting(fobj)", "            setting = Setting(fobj)", "C02.R5")
+M("C02", "rename-any-type", "beacon.py", "            if setting.type == SettingsType.TYPE_SHORT:\n                setting.index = DeprecatedBeaconSetting.SETTING_INJECT_OPTIONS", "            if setting.type != SettingsType.TYPE_PTR:\n                setting.index = DeprecatedBeaconSetting.SETTING_INJECT_OPTIONS", "C02.R6")
+M("C02", "setting-key-typo", "beacon.py", "return self.raw_settings.get(\"SETTING_PORT\", None)", "return self.raw_settings.get(\"SETTING_PORTS\", None)", "C02.R7")
+M("C02", "setting-struct-le", "beacon.py", "cs_struct = cstruct.cstruct(endian=\">\")", "cs_struct = cstruct.cstruct(endian=\"<\")", "C02.R1")
+T("C02", "twin-dict-acc", "beacon.py", "        settings = OrderedDict()\n        for setting in self.settings_tuple:", "        settings = dict()\n        for setting in self.settings_tuple:")
+T("C02", "twin-unpack-direct", "beacon.py", "                    val = u16be(val)", "                    val = unpack(val, size=2, byteorder=\"big\")",
+  edits=[("beacon.py", "    u16be,\n    u32,", "    u16be,\n    unpack,\n    u32,"), ("beacon.py", "                    val = u16be(val)", "                    val = unpack(val, size=2, byteorder=\"big\")")])
